@@ -258,7 +258,11 @@ const LINE_COMMENTS: &[&str] = &[
     "//==============", "//------------------------", "// it's {a} (*b*) 'q'", "//\ttab", "// TODO: x := 1;",
     "//************", "///----------------", "///==========", "//   ", "///", "//\u{3000}x", "//- - - - - -", "//----------x",
 ];
-const BLOCK_COMMENTS: &[&str] = &["{c}", "{ comment }", "(* c *)", "(*c*)", "{}", "{ it's }", "(* { nested } *)"];
+const BLOCK_COMMENTS: &[&str] = &[
+    "{c}", "{ comment }", "(* c *)", "(*c*)", "{}", "{ it's }", "(* { nested } *)",
+    // the closing delimiter may not overlap the opening one
+    "(*) x *)", "(**)", "(***)", "{*}", "(*)a,b  BEGIN*)", "{ (* }", "(* } *)",
+];
 const MULTI_COMMENTS: &[&str] = &["{ multi\n  line }", "(* a\n b\n c *)", "{\n}"];
 
 fn comment_tok(text: &str, line_start: bool, depth: u16, in_anon: bool) -> PTok {
